@@ -31,6 +31,7 @@ type result struct {
 	Desig        bool   `json:"designated,omitempty"`
 	Holder       bool   `json:"holder,omitempty"`
 	Survivor     bool   `json:"survivor,omitempty"` // hot upgrade: the client that keeps its one connection beyond the old process's exit
+	Quiet        bool   `json:"after_silence,omitempty"` // the quiet survivor's request after its connection sat silent through the hand-over
 	Paired       bool   `json:"paired,omitempty"`   // sent while another request was outstanding on the same (multiplexed) connection
 	KeepAlive    bool   `json:"keepalive"`
 	NewConn      bool   `json:"new_conn"`       // first request on its connection
